@@ -169,8 +169,9 @@ supla_esp_cfg_init(void) {
 
 				SuplaEspCfg_old_v5A *oldA = (SuplaEspCfg_old_v5A*)&supla_esp_cfg;
 				SuplaEspCfg_old_v5B *oldB = (SuplaEspCfg_old_v5B*)&supla_esp_cfg;
-				SuplaEspCfg new;
-				memset(&new, 0, sizeof(SuplaEspCfg));
+				// v6 layout: the 6->7 step below reads this record as SuplaEspCfg_old_v6
+				SuplaEspCfg_old_v6 new;
+				memset(&new, 0, sizeof(SuplaEspCfg_old_v6));
 				memcpy(new.TAG, TAG, 6);
 				new.TAG[5] = 6;
 
@@ -218,7 +219,8 @@ supla_esp_cfg_init(void) {
 				}
 
 
-			    memcpy(&supla_esp_cfg, &new, sizeof(SuplaEspCfg));
+			    memset(&supla_esp_cfg, 0, sizeof(SuplaEspCfg));
+			    memcpy(&supla_esp_cfg, &new, sizeof(SuplaEspCfg_old_v6));
 
 			    migrated = 1;
 
